@@ -42,3 +42,26 @@ class Plain(Transform):
 
     def __call__(self, x):
         return x * self.k
+
+
+class WritesThroughAlias(Transform):
+    def __init__(self, tm):
+        self.tm = tm
+
+    def __call__(self, x):
+        tm = np.asarray(self.tm, dtype=np.float32)  # no copy: the dtype already matches
+        tm[:3, 3] += x
+        return tm
+
+
+class AliasOnlyOnOtherArm(Transform):
+    def __init__(self, tm):
+        self.tm = tm
+
+    def __call__(self, x, centre):
+        if centre:
+            tm = self.tm.copy()
+            tm[:3, 3] += x
+        else:
+            tm = self.tm
+        return tm
